@@ -44,6 +44,8 @@ def make_spec(st, idx, tier):
     zb = [r["geographic_unit_fips"] for r in spec["world"]["baseline"] if r["baseline_turnout"] == 0]
     if zb and st.operator.random() < 0.5:
         mp.setdefault("unit_blocklist", []).append(zb[0])
+    if st.sched.random() < 0.25:
+        C.make_live_frame_night(spec)
     return spec
 
 
@@ -178,6 +180,8 @@ class Checker(C.BaseChecker):
             st.probes["cat:" + c] += 1
         if flagged:
             st.probes["outlier_model_flagged"] += 1
+        if rec.extra.get("feed_frame_reused_in_place"):
+            st.probes["poll_on_a_feed_frame_updated_in_place"] += 1
         mp = p["model_parameters"]
         nontrivial = len(cats) >= 2 or bool(boundary)
         st.state((p["pi_method"], tuple(sorted(p["estimands"])), p["handle_unreporting"], p["threshold"],
